@@ -395,9 +395,10 @@ void MatrixAppendCol(matrix* m, dvector *col)
 
   lastcol = m->col;
 
-  if(rowsize < m->row){
+  if(col->size < m->row){
+    /* the column is shorter than the matrix is tall: pad it with zeros */
     for(i = 0; i < m->row; i++ ){
-      if(i < rowsize)
+      if(i < col->size)
         m->data[i][lastcol] = col->data[i];
     else
       m->data[i][lastcol] = +0.f;
@@ -525,9 +526,10 @@ void MatrixAppendUICol(matrix* m, uivector *col)
 
   lastcol = m->col;
 
-  if(rowsize < m->row){
+  if(col->size < m->row){
+    /* the column is shorter than the matrix is tall: pad it with zeros */
     for(i = 0; i < m->row; i++ ){
-      if(i < rowsize)
+      if(i < col->size)
         m->data[i][lastcol] = col->data[i];
     else
       m->data[i][lastcol] = +0.f;
